@@ -901,7 +901,7 @@ class Interp:
             return getattr(obj, name)
         if isinstance(obj, str) and obj == "dev":
             return obj
-        if not isinstance(obj, (SymTensor, SymTD)) and hasattr(obj, name) and type(obj).__module__.startswith("tvc"):
+        if not isinstance(obj, (SymTensor, SymTD)) and hasattr(obj, name) and (type(obj).__module__.startswith("tvc") or type(obj).__module__.startswith("contracts")):
             return getattr(obj, name)
         raise Unsupported(f"attribute {name} on {type(obj).__name__}")
 
